@@ -7,6 +7,8 @@ import (
 	"crypto/rsa"
 	"crypto/sha256"
 	"crypto/sha512"
+	"encoding/base64"
+	"encoding/hex"
 	"encoding/json"
 	"fmt"
 	"math/rand"
@@ -373,6 +375,8 @@ func execIssuance(c *ctx, in ev) []ev {
 		return []ev{execVerify(c, in)}
 	case "VerifySeq":
 		return execVerifySeq(c, in)
+	case "TypeSweep":
+		return []ev{execTypeSweep(c, in)}
 	case "RLSeq":
 		return execRLSeq(c, in)
 	case "RLEval":
@@ -468,6 +472,27 @@ func execRun(c *ctx, in ev) ev {
 		"req": B(nil), "resp": B(nil)}
 	e["panic"] = guard(func() {
 		challenge := randBytes(r, chlen)
+		if st := gS(in, "chstyle"); st != "" {
+			// the challenge in the forms it travels in: the TokenChallenge structure, its base64url text from the
+			// WWW-Authenticate header (unpadded, padded, quoted) - to the client all of them are just the bytes to hash
+			tc := tokens.TokenChallenge{TokenType: uint16(t), IssuerName: "issuer.example", RedemptionNonce: randBytes(r, 32), OriginInfo: []string{"origin.example"}}
+			raw := tc.Marshal()
+			switch st {
+			case "tc":
+				challenge = raw
+			case "tc-b64url":
+				challenge = []byte(base64.RawURLEncoding.EncodeToString(raw))
+			case "tc-b64url-pad":
+				challenge = []byte(base64.URLEncoding.EncodeToString(raw))
+			case "tc-b64-std":
+				challenge = []byte(base64.StdEncoding.EncodeToString(raw))
+			case "tc-quoted":
+				challenge = []byte("\"" + base64.RawURLEncoding.EncodeToString(raw) + "\"")
+			case "tc-hex":
+				challenge = []byte(hex.EncodeToString(raw))
+			}
+			e["chlen"] = len(challenge)
+		}
 		if kind == "ForeignKeyCollide" {
 			// the same client object has served a complete run for issuer k1 before
 			r0 := s.create(t, n, "k1", randBytes(r, chlen), mkNonces(), origin, "c1")
@@ -730,6 +755,59 @@ func (w *verifyWorld) step(c *ctx, tm map[string]any, r *rand.Rand) ev {
 	return e
 }
 
+// execTypeSweep: an honest value presented under EVERY other 16-bit token type (an alias of the type - a draft code
+// point, a private-use number - is one value among 65535; flipping single bits of the type never reaches it)
+func execTypeSweep(c *ctx, in ev) ev {
+	what, lo, hi, stride := gS(in, "what"), gI(in, "lo"), gI(in, "hi"), gI(in, "stride")
+	r := newRand(c.seed, fmt.Sprintf("typesweep-%s-%d", what, lo))
+	e := ev{"op": "TypeSweep", "what": what, "lo": lo, "hi": hi, "tried": 0, "accepted": 0, "first": -1, "panic": ""}
+	e["panic"] = guard(func() {
+		var own int
+		var present func(t uint16) bool
+		switch what {
+		case "rl":
+			own = 3
+			x := newRLWorld(c)
+			st, err := type3.NewRateLimitedClientFromSecret(x.secret).CreateTokenRequest(randBytes(r, 9), randNonce(r), randScalar(r),
+				x.w.issuer.TokenKeyID(), x.w.issuer.TokenKey(), x.origin, x.w.issuer.NameKey())
+			if err != nil {
+				panic(err)
+			}
+			enc := append([]byte{}, st.Request().Marshal()...)
+			present = func(t uint16) bool {
+				b := append([]byte{}, enc...)
+				b[0], b[1] = byte(t>>8), byte(t)
+				_, _, err := x.w.issuer.Evaluate(b)
+				return err == nil
+			}
+		case "t1verify", "t5verify":
+			own = map[string]int{"t1verify": 1, "t5verify": 5}[what]
+			w := newVerifyWorld(c, own, r)
+			present = func(t uint16) bool {
+				tok := w.tok
+				tok.TokenType = t
+				return w.verify(false, tok) == nil
+			}
+		}
+		if stride < 1 {
+			stride = 1
+		}
+		for t := lo + r.Intn(stride); t < hi; t += stride {
+			if t == own {
+				continue
+			}
+			e["tried"] = e["tried"].(int) + 1
+			if present(uint16(t)) {
+				e["accepted"] = e["accepted"].(int) + 1
+				if e["first"].(int) < 0 {
+					e["first"] = t
+				}
+			}
+		}
+	})
+	return e
+}
+
 func execVerify(c *ctx, in ev) ev {
 	r := newRand(c.seed, fmt.Sprintf("verify-%v", in["rid"]))
 	tm, _ := in["tmut"].(map[string]any)
@@ -873,6 +951,9 @@ func (x *rlWorld) step(c *ctx, cls map[string]any, r *rand.Rand) ev {
 			enc = enc[:len(enc)-96]
 		case "Trailing":
 			enc = append(enc, 0)
+			if nv, ok := cls["n"]; ok && jInt(nv) > 1 { // (lengths at which a 16-bit length comparison wraps around)
+				enc = append(enc, randBytes(r, jInt(nv)-1)...)
+			}
 		case "BadKey": // request key replaced by another valid point: AAD and signature no longer match
 			q2 := type3.NewRateLimitedClientFromSecret(p384Scalar(c.seed, "rl-client-2"))
 			st, _ := q2.CreateTokenRequest(randBytes(r, 9), randNonce(r), blind, w.issuer.TokenKeyID(), w.issuer.TokenKey(), origin, w.issuer.NameKey())
@@ -922,6 +1003,11 @@ func execRLSeq(c *ctx, in ev) []ev {
 // signT3 signs a rate-limited request with the secret key blinded by blind
 // (the signature the client would produce), using the ECDSA fork directly.
 func signT3(secret, blind []byte, req *type3.RateLimitedTokenRequest) []byte {
+	return signT3Ctx(secret, blind, req, ctxType3("ClientBlind"))
+}
+
+// signT3Ctx: the same with the key blind bound to another context string (what a client of another draft would do)
+func signT3Ctx(secret, blind []byte, req *type3.RateLimitedTokenRequest, blindCtx []byte) []byte {
 	curve := elliptic.P384()
 	sk, _ := rawKey(curve, secret)
 	bk, _ := rawKey(curve, blind)
@@ -931,7 +1017,7 @@ func signT3(secret, blind []byte, req *type3.RateLimitedTokenRequest) []byte {
 	msg = append(msg, byte(len(req.EncryptedTokenRequest)>>8), byte(len(req.EncryptedTokenRequest)))
 	msg = append(msg, req.EncryptedTokenRequest...)
 	d := sha512.Sum384(msg)
-	rr, ss, err := ecdsa.BlindKeySignWithContext(cryptorand.Reader, sk, bk, d[:], ctxType3("ClientBlind"))
+	rr, ss, err := ecdsa.BlindKeySignWithContext(cryptorand.Reader, sk, bk, d[:], blindCtx)
 	if err != nil {
 		panic(err)
 	}
@@ -1133,6 +1219,14 @@ func execDet(c *ctx, in ev) []ev {
 				pe.fin = func() ([]byte, error) {
 					wire := new(type1.BasicPrivateTokenRequest) // the issuer sees the request's bytes
 					if !wire.Unmarshal(append([]byte{}, st.Request().Marshal()...)) {
+						// (a degenerate blind: the element is the identity, which has no wire form) - an issuer in the same
+						// process is handed the request object itself: still no token may come of it that does not verify
+						wire = st.Request()
+						if resp, err := iss.Evaluate(wire); err == nil {
+							if tok, err := st.FinalizeToken(resp); err == nil && iss.Verify(tok) != nil {
+								return nil, errBadToken
+							}
+						}
 						return nil, fmt.Errorf("the request's own encoding does not decode")
 					}
 					resp, err := iss.Evaluate(wire)
@@ -1842,6 +1936,12 @@ func genIssuance(c *ctx, emit func(ev)) {
 			for _, n := range ns {
 				run(5, n, 32, 0, id)
 			}
+			for _, st := range []string{"tc", "tc-b64url", "tc-b64url-pad", "tc-b64-std", "tc-quoted", "tc-hex"} {
+				for _, t := range []int{1, 2, 3, 5} {
+					rid++
+					emit(ev{"op": "Run", "rid": rid, "t": t, "n": 1, "chlen": 0, "olen": 14, "mut": id, "chstyle": st})
+				}
+			}
 			for _, ol := range ols {
 				run(3, 1, 32, ol, id)
 			}
@@ -1949,6 +2049,12 @@ func genIssuance(c *ctx, emit func(ev)) {
 		}
 	}
 	if want("verify") { // C10
+		// the honest token under other token types: all 65535 of them, in 32 chunks
+		for _, what := range []string{"t1verify", "t5verify"} {
+			for lo := 0; lo < 65536; lo += 2048 {
+				emit(ev{"op": "TypeSweep", "what": what, "lo": lo, "hi": lo + 2048, "stride": 1})
+			}
+		}
 		vid := 0
 		ver := func(t int, tm ev) {
 			vid++
@@ -2013,6 +2119,8 @@ func genIssuance(c *ctx, emit func(ev)) {
 			rl(ev{"kind": "OtherContents"})
 			rl(ev{"kind": "NoSig"})
 			rl(ev{"kind": "Trailing"})
+			rl(ev{"kind": "Trailing", "n": 65536})
+			rl(ev{"kind": "Trailing", "n": 65536 * (2 + rep%3)})
 			rl(ev{"kind": "BadKey"})
 			rl(ev{"kind": "WrongAAD"})
 			for _, k := range []int{0, 1, 100, 256, 257, 258, 300} {
@@ -2054,6 +2162,10 @@ func genIssuance(c *ctx, emit func(ev)) {
 			}
 			qid++
 			emit(ev{"op": "RLSeq", "rid": qid, "steps": steps})
+		}
+		// the honest request under every other token type (refused at the first check: cheap)
+		for lo := 0; lo < 65536; lo += 8192 {
+			emit(ev{"op": "TypeSweep", "what": "rl", "lo": lo, "hi": lo + 8192, "stride": 1})
 		}
 		// every bit of an encoded request (both tiers; rejections are cheap)
 		sizes := map[string]int{"type": 2, "request_key": 49, "name_key_id": 32, "enc_len": 2, "enc": 32 + 259 + 32 + 16, "sig": 96}
